@@ -211,13 +211,23 @@ impl TestRunner {
         let mut cpu = MOS6502::new();
         cpu.set_program_counter(active_test.data.as_i64() as u16);
 
+        let segment_bank = segment_bank.clone();
         ensure_ram_fn(
             &mut ctx,
             Box::new(TestRunnerMemoryAccessor { ram: ram.clone() }),
         );
 
         let tree = ctx.tree().clone();
-        let test_elements = ctx.remove_test_elements();
+        // A test sees only the bank it is defined in: what another bank has at the same address is not there
+        let mut test_elements = ctx.remove_test_elements();
+        test_elements.retain(|element| {
+            element
+                .segment()
+                .and_then(|segment| ctx.segments().get(segment))
+                .map_or(true, |segment| {
+                    segment.options().bank.as_ref() == Some(&segment_bank)
+                })
+        });
         Ok(Self {
             ctx: Arc::new(Mutex::new(ctx)),
             tree,
